@@ -32,7 +32,13 @@ Round 3 (lib/c10_refs.py: TYPE REFERENCES as a swept dimension - one module per 
      hops + member tags) for every table; the theorems C10_alias_* say what that gives for chains of any length;
  (i) thorough: asn1c rebuilt with --coverage in a scratch copy, every module run once; evidence lists which module first
      reaches each asn1c_lang_C_type_* emitter / each case arm of emit_type_DEF, emit_member_table ..., and the
-     never-executed lines of libasn1compiler/asn1c_C.c."""
+     never-executed lines of libasn1compiler/asn1c_C.c.
+Round 4 (lib/c10_partial.py: exactly ONE emission unit fails in the EMITTER - first / middle / last among top-level types, among the
+specializations of a parameterized type, as a component; lib/c10_strlit.py: string literals with octets 0x01..0xff; coq/Fix/CompileFold.v):
+ (j) every job: a `FATAL:` line or an `#error` directive in a generated file never comes with exit status 0;
+ (k) the emitted permitted-alphabet checker of every FROM site admits exactly the octets of the literal (c10_util.alphabet_oracle);
+ (l) exit status and number of `Cannot compile` diagnostics = CompileFold.exit_status / top_fatals of the extracted model on the
+     emission-unit tree of the module (theorems C10_exit_zero_iff_all_units_ok, C10_exit_order_independent, ...)."""
 import sys, os, re, json, time
 sys.path.insert(0, os.path.join(os.path.dirname(os.path.abspath(__file__)), "..", "lib"))
 from vlib import *
